@@ -19,14 +19,19 @@ THEOREMS = [
     "GeoVerif.Ws.copy_fresh",
     "GeoVerif.Ws.copy_collision_refused",
     "GeoVerif.Ws.step_nodup",
+    "GeoVerif.Ws.cross_keeps_free",
+    "GeoVerif.Ws.cross_replaces_used",
+    "GeoVerif.Ws.cross_not_used",
+    "GeoVerif.Ws.crossIds_nodup",
 ]
 RULE = (
     "histories where 50% of create_group/create_object/add_data calls pass uid= from a pool of 6 identifiers, mixed with removals, "
     "gc points, copies and re-opens; distinct by hash of the op list; non-trivial when at least one creation was refused and one "
-    "copy or re-creation after removal succeeded"
+    "copy or re-creation after removal succeeded; plus two-workspace scenarios (make in A / copy into B / remove the copy in B and drop it / list B / re-open B / "
+    "create an entity in B under an identifier of A) judged by the identifier policy crossIds"
 )
 ASSUMPTIONS = [
-    "cross-workspace copies (identifier kept when free in the target) are exercised by C12's correspondence",
+    "cross-workspace copies: identifiers of the copied object and its data children are judged (kept iff free in the target by the harness's own account of what lives there); property-group identifiers of cross-workspace copies are not judged",
     "type identifiers: one type per object/group class is checked by census on the real workspace; data types are per data name",
 ]
 LEVEL_TEXT = (
@@ -66,9 +71,116 @@ def census(ctx, s, case):
                 return
 
 
+def cross_workspace(ctx: Ctx):
+    """Copies from workspace A into workspace B: an identifier is kept exactly when it is free in B.
+
+    The harness keeps its own account of the identifiers alive in B (what it created or copied there and did not
+    remove); the Lean policy `crossIds` and the real copy must agree entity by entity."""
+    import gc
+    import os
+    import warnings
+
+    import numpy as np
+    warnings.filterwarnings("ignore")
+    from geoh5py.objects import Points
+    from geoh5py.workspace import Workspace
+    n = ctx.n(30, 600)
+    lines, recs = [], []
+    for i in range(n):
+        rng = ctx.rng
+        ops = [rng.choice(["make", "make", "copy", "copy", "copy", "remove", "remove", "list", "reopen", "squat"]) for _ in range(rng.randrange(4, 12))]
+        case = {"cross": True, "ops": ops, "r": [rng.randrange(1 << 16) for _ in ops]}
+        pa, pb = ctx.scratch / f"c06a_{i}.geoh5", ctx.scratch / f"c06b_{i}.geoh5"
+        for p in (pa, pb):
+            if p.exists():
+                os.remove(p)
+        uids = wsh.Uids()
+        wa, wb = Workspace.create(pa), Workspace.create(pb)
+        srcs, live_b, copies_b = [], set(), []          # copies_b: uuids of copied objects alive in B
+        kept = fresh = 0
+        try:
+            for op, r in zip(ops, case["r"]):
+                if op == "make" or not srcs:
+                    v = np.c_[np.arange(3.0), np.zeros(3), np.zeros(3)] + r % 5
+                    o = Points.create(wa, vertices=v, name=f"o{len(srcs)}")
+                    for j in range(r % 3):
+                        o.add_data({f"d{j}": {"values": np.arange(3.0) + j}})
+                    srcs.append(o.uid)
+                    del o
+                elif op == "copy":
+                    src = wa.get_entity(srcs[r % len(srcs)])[0]
+                    members = [src] + list(src.children)
+                    before = set(live_b)
+                    new = src.copy(parent=wb)
+                    got = [new] + [next(c for c in new.children if c.name == m.name) for m in members[1:]]
+                    pairs, actual = [], []
+                    for m, g in zip(members, got):
+                        actual.append(uids.num(g.uid))
+                        pairs.append([uids.num(m.uid), uids.num(g.uid) if g.uid != m.uid else uids.num(__import__("uuid").uuid4())])
+                    lines.append({"m": "ws", "op": "crossids", "used": sorted(uids.num(u) for u in before), "pairs": pairs})
+                    recs.append((case, actual, [m.name for m in members]))
+                    used = set(before)
+                    for m, g in zip(members, got):
+                        if m.uid not in used and g.uid != m.uid:
+                            ctx.fail(case, f"copy into another workspace: identifier of {m.name} was free there but the copy got a new one",
+                                     "C06:cross-copy:free-identifier-not-kept")
+                        if g.uid in used:
+                            ctx.fail(case, f"copy into another workspace: {m.name} got an identifier that is in use there", "C06:cross-copy:identifier-in-use")
+                        kept += g.uid == m.uid
+                        fresh += g.uid != m.uid
+                        used.add(g.uid)
+                    live_b |= {g.uid for g in got}
+                    copies_b.append(new.uid)
+                    del src, members, new, got, m, g
+                elif op == "remove" and copies_b:
+                    u = copies_b.pop(r % len(copies_b))
+                    e = wb.get_entity(u)[0]
+                    gone = {e.uid} | {c.uid for c in e.children}
+                    wb.remove_entity(e)
+                    del e
+                    gc.collect()
+                    live_b -= gone
+                elif op == "list":
+                    _ = (len(wb.objects), len(wb.data), len(wb.groups))
+                elif op == "reopen":
+                    wb.close()
+                    wb = Workspace(str(pb))
+                elif op == "squat":
+                    # an entity created in B under the identifier of an entity of A: copies of that one must not keep it
+                    cand = [u for u in srcs if u not in live_b]
+                    if cand:
+                        u = cand[r % len(cand)]
+                        Points.create(wb, vertices=np.zeros((2, 3)), name="squatter", uid=u)
+                        live_b.add(u)
+            ctx.case(case, nontrivial=kept > 0 and fresh > 0)
+            ctx.count("cross_copy_identifier_kept", kept)
+            ctx.count("cross_copy_identifier_fresh", fresh)
+        except Exception as e:  # noqa: BLE001
+            ctx.case(case, nontrivial=False)
+            ctx.fail(case, f"cross-workspace scenario raised {type(e).__name__}: {str(e)[:120]}", f"C06:cross-copy:raises:{type(e).__name__}")
+        finally:
+            for w in (wa, wb):
+                try:
+                    w.close()
+                except Exception:  # noqa: BLE001
+                    pass
+            for p in (pa, pb):
+                if p.exists():
+                    os.remove(p)
+    outs = ctx.driver.run(lines) if lines else []
+    for (case, actual, names), out in zip(recs, outs):
+        ctx.traces += 1
+        if list(out) != actual:
+            ctx.disagree(case, f"crossIds: model {out} implementation {actual} for {names}")
+
+
 def run(ctx: Ctx):
     wscheck.run_props(ctx, WANT, weights=WEIGHTS, pool=6, post=census)
+    cross_workspace(ctx)
 
 
 def replay(ctx: Ctx, payload):
-    wscheck.replay_props(ctx, payload, WANT, post=census)
+    if payload.get("case", {}).get("cross"):
+        cross_workspace(ctx)          # scenarios are re-derived from the seed recorded in the replay file
+    else:
+        wscheck.replay_props(ctx, payload, WANT, post=census)
